@@ -72,8 +72,7 @@ func (fr *Frame) instr(ins ssa.Instruction, st *State, g *Term) *Term {
 		case *types.Slice:
 			s := fr.term(x.X)
 			ng := fr.mayPanicIf(g, mk(SBool, fmt.Sprintf("(or (< %s 0) (>= %s (s.len %s)))", idx.S, idx.S, s.S)), st, "index", x.Pos(), "index out of range")
-			es := c.sortOf(xt.Elem())
-			fr.vals[x] = Val{Loc: &Loc{Kind: LCell, Name: c.elemName(es), Idx: []*Term{mk(SInt, "(s.arr "+s.S+")"), mk(SInt, fmt.Sprintf("(sidx %s %s)", s.S, idx.S))}, Elem: xt.Elem()}}
+			fr.vals[x] = Val{Loc: &Loc{Kind: LCell, Name: c.elemNameT(xt.Elem()), Idx: []*Term{mk(SInt, "(s.arr "+s.S+")"), mk(SInt, fmt.Sprintf("(sidx %s %s)", s.S, idx.S))}, Elem: xt.Elem()}}
 			return ng
 		case *types.Pointer:
 			arr := xt.Elem().Underlying().(*types.Array)
@@ -188,7 +187,7 @@ func (fr *Frame) instr(ins ssa.Instruction, st *State, g *Term) *Term {
 		r := c.allocRef(st, g, "mkslice."+x.Name())
 		el := x.Type().Underlying().(*types.Slice).Elem()
 		es := c.sortOf(el)
-		en := c.elemName(es)
+		en := c.elemNameT(el)
 		zero := mk(ArrSort(SInt, es), fmt.Sprintf("((as const %s) %s)", ArrSort(SInt, es), c.zeroTerm(el).S))
 		c.heapSet(st, en, c.sto(c.heapGet(st, en), r, zero))
 		fr.vals[x] = tv(mk(SSlice, fmt.Sprintf("(mk-slice %s 0 %s)", r.S, n.S)))
@@ -665,9 +664,8 @@ func (fr *Frame) sliceOp(x *ssa.Slice, st *State, g *Term) *Term {
 		// To keep slices uniform we copy the array into a fresh backing store and mark the function if it is written later.
 		ploc := c.derefLoc(base, x.X.Type())
 		av := c.load(st, ploc)
-		es := c.sortOf(arr.Elem())
 		r := c.allocRef(st, g, "arrslice."+x.Name())
-		en := c.elemName(es)
+		en := c.elemNameT(arr.Elem())
 		c.heapSet(st, en, c.sto(c.heapGet(st, en), r, av))
 		c.warn("slice of array %s at %s: aliasing with the array is not modelled (copy semantics)", x.Name(), c.posOf(x.Pos()))
 		ng := fr.mayPanicIfNew(g, mk(SBool, fmt.Sprintf("(or (< %s 0) (> %s %s) (> %s %d))", lo.S, lo.S, hi.S, hi.S, arr.Len())), st, "slice", x.Pos(), "slice bounds out of range")
